@@ -245,9 +245,11 @@ def multibandify(tj, rng, varieties=MB_VARIETIES, only=None, members=None):
             cx.append({'from_node': uid, 'to_node': b})
 
 
-def build_multiband(rng, dispersion_variants=False):
+def build_multiband(rng, dispersion_variants=False, ej_hook=None):
     """Generated C+L network: every ROADM designs for two bands, every junction carries a multiband amplifier."""
     ej = G.eqpt_json('eqpt_config_multiband.json')
+    if ej_hook:
+        ej_hook(ej)
     equipment = G.make_equipment(ej)
 
     def rp(r, s):
